@@ -51,6 +51,16 @@ def boundary_cuts(n):
     return sorted({c for c in (1, 2, 3, 4, 5, 23, 24, 25, 255, 256, 257, 511, 512, n - 1) if 0 < c < n})
 
 
+def send_cuts(n):
+    """Where the OS may stop accepting bytes of a long message: the small boundaries, the middle, and around every power of two
+    and the usual buffer / segment sizes (a window or chunk constant in the sender shows only beyond it)."""
+    c = set(boundary_cuts(n)) | {n // 2}
+    for k in range(6, 17):
+        c |= {(1 << k) - 1, 1 << k, (1 << k) + 1}
+    c |= {1000, 1024 * 3, 1460, 1461, 2920, 4000, 4002, 5000, 10000, 50000, 65535}
+    return {x for x in c if 0 < x < n}
+
+
 def recv_scenario(fr, cutset, rx_end="timeout", trunc=None):
     """One execution: real Socket.receive over a stream holding fr[:trunc]."""
     import pycomm3.socket_ as S
@@ -146,9 +156,9 @@ def shards(tier, seed):
     for L in FRAME_LENGTHS:
         sh.append(("recv", L))
         sh.append(("recvfault", L))
-    sh += [("send", n) for n in (1, 2, 3, 24, 28, 64, 300, 4002)]
+    sh += [("send", n) for n in (1, 2, 3, 24, 28, 64, 300, 4002, 4096, 4097, 8200, 65535)]
     sh += [("recvseq", L1, L2) for L1 in (0, 4, 300) for L2 in (0, 3, 40, 256)]
-    sh += [("recv", 4, "debuglog"), ("recvfault", 0, "debuglog"), ("send", 24, "debuglog"), ("recvseq", 4, 3, "debuglog")]
+    sh += [("recv", 4, "debuglog"), ("recvfault", 0, "debuglog"), ("send", 24, "debuglog"), ("recvseq", 4, 3, "debuglog"), ("recvfault", 0, "python-O"), ("recvfault", 300, "python-O"), ("send", 24, "python-O"), ("recv", 3, "python-O")]
     if tier == "thorough":
         # every composition of the 24/25/26-byte frames, sharded by the size of the first chunk
         sh += [("allcomp", L, first) for L in (0, 1, 2) for first in range(24 + L)]
@@ -239,8 +249,11 @@ def run_shard(shard, tier, seed):
     elif kind == "send":
         n = shard[1]
         msg = bytes((i * 13 + 5) & 0xFF for i in range(n))
-        cutset = None if n <= 64 else set(boundary_cuts(n)) | {n // 2}
-        st = run_explore(rep, f"send n={n}", send_scenario(msg, cutset), 3, {"delivered"}, {"op": "send", "n": n, "cls": "partial", "mode": "send", "seed": seed})
+        cutset = None if n <= 64 else send_cuts(n)
+        # up to 3 partial sends anywhere in the cut set; for the long messages (many cut points) 2, thorough 3
+        st = run_explore(rep, f"send n={n}", send_scenario(msg, cutset), 3 if n <= 4002 or tier == "thorough" else 2, {"delivered"}, {"op": "send", "n": n, "cls": "partial", "mode": "send", "seed": seed})
+        if n > 4002:
+            cutset = set(boundary_cuts(n)) | {n // 2, 4096, n - 2}
         # faults: zero return / error at the k-th OS send call, after 0..2 partial sends
         for k in range(0, 4):
             for f in ("send_zero", "send_zero_forever", "send_err", "send_partial", "send_timeout"):
@@ -272,7 +285,9 @@ def replay(r):
     else:
         n = r["n"]
         msg = bytes((i * 13 + 5) & 0xFF for i in range(n))
-        cutset = None if n <= 64 else set(boundary_cuts(n)) | {n // 2}
+        cutset = None if n <= 64 else send_cuts(n)
+        if n > 4002 and mode == "sendfault":
+            cutset = set(boundary_cuts(n)) | {n // 2, 4096, n - 2}
         fault = {r["k"]: r["fault"]} if mode == "sendfault" else None
         sc, ch = send_scenario(msg, cutset, fault), r["choices"]
     ctx = C(ch)
